@@ -1401,6 +1401,15 @@ pub fn run(a: &Args) {
     rt2.block_on(async {
         { let mark = out.n_ops(); if let Err(msg) = guarded(crate::c12x::run_all(&mut out, &mut rng, (a.n / 20 + 10).min(4_000), true)).await { report_panic(&mut out, "C12", "worker-pipeline", &format!("seed {}", a.seed), mark, &msg); } }
     });
+    // the manifest object byte for byte (serde_json of `Manifest` vs model M4j)
+    {
+        let mark = out.n_ops();
+        let r = std::panic::catch_unwind(std::panic::AssertUnwindSafe(|| crate::c12j::run_all(&mut out, &mut rng, (a.n / 400 + 6).min(2_000))));
+        if let Err(e) = r {
+            let msg = e.downcast_ref::<String>().cloned().or_else(|| e.downcast_ref::<&str>().map(|s| s.to_string())).unwrap_or_else(|| "panic".into());
+            report_panic(&mut out, "C12", "manifest-json", &format!("seed {}", a.seed), mark, &msg);
+        }
+    }
     crate::stream_api::report(&mut out, "C12");
     out.finish("case = one workload of 3..11 push/flush/compact operations on a real StreamingPersistence + Compactor over a counting, fault-injecting, snapshotting ObjectStore (0..2 faults {error without effect, error after a torn object} at generated call indices), followed by real recovery on the store image at EVERY call boundary (and inside every put); distinct by the op text incl. the fault placement; non-trivial iff some flush returned Ok and the run has a fault, an error or a compaction");
 }
